@@ -250,7 +250,8 @@ def close_all():
 
 
 def decide(decls: str, asserts: Sequence[str], get_values: Sequence[str] = (), timeout_ms: int = 10000,
-           solvers: Sequence[str] = ("z3new", "cvc5"), need_all: bool = False) -> Dict[str, Any]:
+           solvers: Sequence[str] = ("z3new", "cvc5"), need_all: bool = False,
+           timeout_overrides: Optional[Dict[str, int]] = None) -> Dict[str, Any]:
     """Run the query on the given solvers.  Verdict:
        'unsat'  - at least one solver says unsat and none says sat (all, if need_all)
        'sat'    - at least one says sat and none says unsat; values from the first sat solver
@@ -259,7 +260,7 @@ def decide(decls: str, asserts: Sequence[str], get_values: Sequence[str] = (), t
     values = {}
     total = 0.0
     for k in solvers:
-        r = session(k, timeout_ms).query(decls, asserts, get_values)
+        r = session(k, (timeout_overrides or {}).get(k, timeout_ms)).query(decls, asserts, get_values)
         answers[k] = r["result"]
         total += r["s"]
         if r["result"] == "sat" and not values:
